@@ -150,19 +150,44 @@ func genSigOps(r *rand.Rand, n int) []string {
 				d2 = flipBit(r, data)
 			}
 			out = append(out, fmt.Sprintf("sig.verify %s %s %s | %s", hx(d2), hx(mutateSig(r, sig)), toks, after))
+			if i%3 == 0 { // two different keys under one kid, used one after the other: each acts for itself
+				kid := []string{"int:2", "b:" + hx(randBytes(r, 1+r.Intn(4)))}
+				ka, kb := genEdKey(r), genEdKey(r)
+				ta, tb := ka.tokens(r, 0, kid), kb.tokens(r, r.Intn(2), kid)
+				sb := goed25519.Sign(goed25519.NewKeyFromSeed(kb.seed), data)
+				out = append(out, fmt.Sprintf("seq sig.sign %s %s | same ;; sig.sign %s %s | same", hx(data), ta, hx(data), tb))
+				out = append(out, fmt.Sprintf("seq sig.topublic ed25519 %s ;; sig.topublic ed25519 %s", ta, tb))
+				out = append(out, fmt.Sprintf("seq sig.sign %s %s | same ;; sig.verify %s %s %s | same", hx(data), ta, hx(data), hx(sb), tb))
+				out = append(out, fmt.Sprintf("seq sig.verify %s %s %s | same ;; sig.verify %s %s %s | same", hx(data), hx(sb), ta, hx(data), hx(sb), kb.tokens(r, 2, kid)))
+			}
 			continue
 		}
 		k := genEcScalar(r, alg)
 		extras := genCommonExtras(r, alg, sigOpsChoices)
 		form := r.Intn(4)
 		toks := k.tokens(r, form, extras)
-		if r.Intn(12) == 0 { // x of another key, or off-curve x
+		if r.Intn(8) == 0 { // x of another key, off-curve x, or an embedded coordinate that is only a tail of the true one
 			k2 := genEcScalar(r, alg)
 			bad := &ecKey{alg: alg, crv: k.crv, curve: k.curve, d: k.d, x: k2.x, y: k.y}
-			if r.Intn(2) == 0 {
+			bform := 1 + r.Intn(3)
+			switch r.Intn(4) {
+			case 0:
 				bad.x = new(big.Int).Add(k.x, big.NewInt(1))
+			case 1, 2: // the last 1, 8, size-1 octets of the true coordinate, or zero; private key with public members
+				bits := uint(8 * []int{1, 8, k.size() - 1, 0}[r.Intn(4)])
+				tail := func(v *big.Int) *big.Int {
+					return new(big.Int).And(v, new(big.Int).Sub(new(big.Int).Lsh(big.NewInt(1), bits), big.NewInt(1)))
+				}
+				bad.x = k.x
+				if r.Intn(2) == 0 {
+					bad.x = tail(k.x)
+				} else {
+					bad.y = tail(k.y)
+				}
+				bform = 1
 			}
-			toks = bad.tokens(r, 1+r.Intn(3), extras)
+			toks = bad.tokens(r, bform, extras)
+			form = bform
 		}
 		rr, ss, _ := goecdsa.Sign(rngReader{r}, k.goPriv(), hashFor(alg, data))
 		sz := k.size()
@@ -180,6 +205,13 @@ func genSigOps(r *rand.Rand, n int) []string {
 			d2 = flipBit(r, data)
 		}
 		out = append(out, fmt.Sprintf("sig.verify %s %s %s | %s", hx(d2), hx(mutateSig(r, sig)), toks, after))
+		if i%3 == 0 { // two different keys under one kid (see above)
+			kid := []string{"int:2", "b:" + hx(randBytes(r, 1+r.Intn(4)))}
+			kb := genEcScalar(r, alg)
+			ta, tb := k.tokens(r, 0, kid), kb.tokens(r, 2+r.Intn(2), kid)
+			out = append(out, fmt.Sprintf("seq sig.topublic ecdsa %s ;; sig.topublic ecdsa %s", ta, kb.tokens(r, 0, kid)))
+			out = append(out, fmt.Sprintf("seq sig.verify %s %s %s | same ;; sig.verify %s %s %s | same", hx(data), hx(sig), k.tokens(r, 2, kid), hx(data), hx(sig), tb))
+		}
 	}
 	return out
 }
